@@ -555,6 +555,30 @@ fn load_any(path: &str) -> Result<String, String> {
     }
 }
 
+/// as `load_any`, plus a checksum of the file the loaded array saves again: two loads agree on
+/// this string only if EVERY stored field agrees (also the per-k-mer counts no observer prints)
+fn load_any_full(path: &str) -> Result<String, String> {
+    fn reser<IntT: for<'a> UInt<'a>>(a: &MergeSkaArray<IntT>, path: &str) -> String {
+        let re = format!("{path}.resaved");
+        let out = match a.save(&re) {
+            Ok(()) => match std::fs::read(&re).map_err(|e| e.to_string()).and_then(|b| unframe_real(&b)) {
+                Ok(raw) => format!("{}:{}", raw.len(), crc_simple(&raw)),
+                Err(e) => format!("unreadable:{e}"),
+            },
+            Err(e) => format!("unsaved:{e}"),
+        };
+        let _ = std::fs::remove_file(&re);
+        out
+    }
+    if let Ok(a) = MergeSkaArray::<u64>::load(path) {
+        return Ok(format!("64|{}|{}", dump_full(&a), reser(&a, path)));
+    }
+    match MergeSkaArray::<u128>::load(path) {
+        Ok(a) => Ok(format!("128|{}|{}", dump_full(&a), reser(&a, path))),
+        Err(e) => Err(e.to_string()),
+    }
+}
+
 fn dump_full<IntT: for<'a> UInt<'a>>(a: &MergeSkaArray<IntT>) -> String {
     // Display carries ska_version, k, k_bits, rc, counts; dump_array the rows
     let disp = format!("{}", a).replace('\n', ";");
@@ -589,7 +613,7 @@ fn op_skfaults<IntT: for<'a> UInt<'a>>(c: &Case, scratch: &str) -> String {
     let a = make_array::<IntT>(c.usize("k"), c.flag("rc"), c.get("table"));
     a.save(&path).unwrap();
     let bytes = std::fs::read(&path).unwrap();
-    let good = load_any(&path).unwrap();
+    let good = load_any_full(&path).unwrap();
     let stride = c.usize_or("stride", 1);
     let bad_path = format!("{dir}/bad.skf");
     let (mut rejected, mut same, mut different) = (0usize, 0usize, 0usize);
@@ -597,7 +621,7 @@ fn op_skfaults<IntT: for<'a> UInt<'a>>(c: &Case, scratch: &str) -> String {
     let mut frames: Vec<String> = Vec::new();
     let mut eval = |tag: String, data: &[u8]| {
         std::fs::write(&bad_path, data).unwrap();
-        match load_any(&bad_path) {
+        match load_any_full(&bad_path) {
             Err(_) => rejected += 1,
             Ok(s) if s == good => same += 1,
             Ok(_) => {
@@ -613,11 +637,13 @@ fn op_skfaults<IntT: for<'a> UInt<'a>>(c: &Case, scratch: &str) -> String {
         };
         frames.push(format!("{tag}:{fr}"));
     };
-    for cut in (0..bytes.len()).step_by(stride) {
+    // `tail=N`: only the last N bytes (the trailing frames of a multi-frame file)
+    let first = c.opt("tail").map(|t| bytes.len().saturating_sub(t.parse::<usize>().unwrap())).unwrap_or(0);
+    for cut in (first..bytes.len()).step_by(stride) {
         eval(format!("t{cut}"), &bytes[..cut]);
     }
     let mut work = bytes.clone();
-    for i in (0..bytes.len()).step_by(stride) {
+    for i in (first..bytes.len()).step_by(stride) {
         for bit in 0..8 {
             work[i] ^= 1 << bit;
             eval(format!("f{i}.{bit}"), &work);
